@@ -14,6 +14,7 @@ package main
 // Lean model runs on the same tree) and one `run` line per run carries the ordered result.
 //
 // Line protocol (all strings are hex of their UTF-8 bytes, "-" = empty):
+//   #module <import path of the kernel module, from <repo>/kernel/go.mod>
 //   case <id>
 //   #tree <digest> <entries>
 //       entries := <n> entry*n
@@ -792,19 +793,30 @@ func TestVerifC20(t *testing.T) {
 		}
 	}()
 
-	for i, ents := range c20Boundary() {
-		c20Generated(t, out, base, fmt.Sprintf("b%d", i), ents)
-	}
-
-	// the kernel tree itself (relative to the package under test: <repo>/kbuild/../kernel)
+	// the import path of the kernel module, from its go.mod: what "fully qualified" means,
+	// independently of the constant in redirects.go
 	cwd, err := os.Getwd()
 	if err != nil {
 		t.Fatal(err)
 	}
 	kernel := filepath.Join(cwd, "..", "kernel")
-	if _, err := os.Stat(kernel); err != nil {
+	gomod, err := os.ReadFile(filepath.Join(kernel, "go.mod"))
+	if err != nil {
 		t.Fatalf("kernel tree not found: %v", err)
 	}
+	module := ""
+	for _, l := range strings.Split(string(gomod), "\n") {
+		if f := strings.Fields(l); len(f) == 2 && f[0] == "module" {
+			module = f[1]
+		}
+	}
+	out.printf("#module %s\n", c20Hex(module))
+
+	for i, ents := range c20Boundary() {
+		c20Generated(t, out, base, fmt.Sprintf("b%d", i), ents)
+	}
+
+	// the kernel tree itself (relative to the package under test: <repo>/kbuild/../kernel)
 	c20Case(t, out, "kernel", c20Abstract(t, kernel), kernel, c20Runs)
 
 	rng := &vrng{s: verifSeed()}
